@@ -147,6 +147,17 @@ def copy(a, order="K", **kw):
     return asarray(a).copy(order=order)
 
 
+def shares_memory(a, b, max_work=None):
+    """True iff the two arrays are views of the same buffer with at least one common element."""
+    a, b = asarray(a), asarray(b)
+    if a._buf is not b._buf or a.size == 0 or b.size == 0:
+        return False
+    return builtins.bool(set(a._offsets()) & set(b._offsets())) if hasattr(a, "_offsets") else True
+
+
+may_share_memory = shares_memory
+
+
 def nan_to_num(a, copy=True, nan=0.0, posinf=None, neginf=None):
     """NaN -> `nan` (default 0); infinities -> the largest finite values of the type (or posinf / neginf)."""
     arr = asarray(a)
